@@ -1128,7 +1128,7 @@ def fnkinds(ctx, harness):
 # main
 # ------------------------------------------------------------------------------------------------
 
-THEOREMS_MIN = 80
+THEOREMS_MIN = 100
 
 def build(ctx):
     regen_ok = ctx.regen()
